@@ -98,6 +98,11 @@ def fork_run(mod, trace, tier, timeout_s, scratch_root=None):
             signal.signal(signal.SIGINT, signal.SIG_DFL)
             signal.signal(signal.SIGTERM, signal.SIG_DFL)
             try:
+                import faulthandler
+                faulthandler.dump_traceback_later(max(5.0, timeout_s * 0.9), exit=False)
+            except Exception:
+                pass
+            try:
                 res = _child_main(mod, trace, tier, scratch_root)
             except BaseException:
                 res = {"seed": trace.get("seed"), "harness_error": traceback.format_exc()[-4000:]}
